@@ -136,10 +136,30 @@ def probe_configs(comp, cfgs, rep, namer, classer, procs=None):
 # ---------------------------------------------------------------------------------------
 # grouped trace validation
 
+def chunks_by_lines(traces, max_lines=80000):
+    """split a trace list so that one TLC run loads at most ~max_lines cycle lines"""
+    out, cur, n = [], [], 0
+    for t in traces:
+        if cur and n + len(t["cycles"]) > max_lines:
+            out.append(cur)
+            cur, n = [], 0
+        cur.append(t)
+        n += len(t["cycles"])
+    if cur:
+        out.append(cur)
+    return out
+
+
 def validate_grouped(comp, traces, rep, namer, classer, timeout=1800):
-    """validate_traces of the framework, but one violation record per
-    (component, failing clauses, configuration class)."""
-    rej = vcomp.validate_traces(comp, traces, rep, rep.pid, timeout=timeout, self_test=True)
+    """validate_traces of the framework (in chunks), but one violation record per
+    (component, failing clauses, configuration class).  Returned rejects carry tids that index
+    `traces` (1-based)."""
+    rej, base = [], 0
+    for chunk in chunks_by_lines(traces):
+        for r in vcomp.validate_traces(comp, chunk, rep, rep.pid, timeout=timeout, self_test=True):
+            r["tid"] += base
+            rej.append(r)
+        base += len(chunk)
     rep.add("traces_validated_against_impl", len(traces))
     groups = defaultdict(list)
     for r in rej:
